@@ -119,8 +119,10 @@ Lemma match_regex_spec : forall re, spec re.
 Proof.
   fix IH 1. intros re vals H. destruct re as [f rs|f ranges|f r|f subs|f subs| | | | |f op]; cbn [match_regex r_fold] in H;
     try discriminate; (destruct f; [discriminate|]); cbn [frag Lang]; try discriminate.
-  - inversion H; subst. split; [reflexivity|]. intros mid. cbn. split; [intros ->; left; reflexivity|intros [E|[]]; congruence].
-  - destruct (Z.of_nat max_literals <? class_size ranges); [discriminate|]. inversion H; subst. split; [reflexivity|].
+  - destruct (forallb valid_rune rs); [|discriminate].
+    inversion H; subst. split; [reflexivity|]. intros mid. cbn. split; [intros ->; left; reflexivity|intros [E|[]]; congruence].
+  - destruct (Z.of_nat max_literals <? class_size ranges); [discriminate|].
+    destruct (forallb (forallb valid_rune) (class_strings ranges)); [|discriminate]. inversion H; subst. split; [reflexivity|].
     intros mid. symmetry. apply class_strings_spec.
   - destruct (IH r vals H) as [Hf Hl]. split; [split; [reflexivity|exact Hf]|exact Hl].
   - (* concat *)
@@ -372,3 +374,45 @@ Proof.
   destruct (rewrite_regex syn e); reflexivity.
 Qed.
 End RewriteSound.
+
+(* ---- every literal a rewrite produces has a string form: it consists of Unicode scalar values (no surrogate), so
+   writing it as a Go string - which is what the rewritten condition compares with - loses nothing ---- *)
+Definition valid_text (v : text) : Prop := forallb valid_rune v = true.
+
+Lemma match_regex_valid : forall re vals, match_regex re = Some vals -> Forall valid_text vals.
+Proof.
+  fix IH 1. intros re vals H. destruct re as [f rs|f ranges|f r|f subs|f subs| | | | |f op]; cbn [match_regex r_fold] in H;
+    try discriminate; (destruct f; [discriminate|]); try discriminate.
+  - destruct (forallb valid_rune rs) eqn:E; [|discriminate]. inversion H; subst. constructor; [exact E|constructor].
+  - destruct (Z.of_nat max_literals <? class_size ranges); [discriminate|].
+    destruct (forallb (forallb valid_rune) (class_strings ranges)) eqn:E; [|discriminate]. inversion H; subst.
+    apply Forall_forall. intros x Hx. rewrite forallb_forall in E. apply E. exact Hx.
+  - apply (IH r). exact H.
+  - destruct subs as [|s0 rest]; [discriminate|]. fold cat_go in H.
+    destruct (match_regex s0) as [v0|] eqn:E0; [|rewrite cat_go_none in H; discriminate].
+    pose proof (IH s0 v0 E0) as H0.
+    assert (Hrest : forall rest ns r, Forall valid_text ns -> cat_go (Some ns) rest = Some r -> Forall valid_text r).
+    { clear H. induction rest0 as [|s rest0 IHr]; intros ns r Hns Hg.
+      - cbn in Hg. inversion Hg; subst. exact Hns.
+      - cbn [cat_go] in Hg. destruct (match_regex s) as [vs|] eqn:Es; [|discriminate]. pose proof (IH s vs Es) as Hvs.
+        destruct (concat_step ns vs) as [ns'|] eqn:Ec; [|rewrite cat_go_none in Hg; discriminate].
+        apply (IHr ns' r); [|exact Hg]. apply Forall_forall. intros x Hx.
+        apply (concat_step_spec ns vs ns' x Ec) in Hx. destruct Hx as [a [b [E [Ha Hb]]]]. subst x.
+        rewrite Forall_forall in Hns, Hvs. unfold valid_text. rewrite forallb_app. rewrite (Hns a Ha), (Hvs b Hb). reflexivity. }
+    exact (Hrest rest v0 vals H0 H).
+  - fold alt_go in H. destruct (alt_go subs) as [names|] eqn:Ea; [|discriminate].
+    destruct (max_literals <? length names)%nat; [discriminate|]. inversion H; subst names.
+    clear H. revert vals Ea. induction subs as [|s subs IHs]; intros names Hg.
+    + cbn in Hg. inversion Hg; subst. constructor.
+    + cbn [alt_go] in Hg. destruct (match_regex s) as [a|] eqn:Es; [|discriminate].
+      destruct (alt_go subs) as [b|] eqn:Eb; [|discriminate]. inversion Hg; subst names.
+      apply Forall_app. split; [apply (IH s a Es)|apply IHs; reflexivity].
+Qed.
+
+Lemma match_exact_valid re vals : match_exact re = Some vals -> Forall valid_text vals.
+Proof.
+  unfold match_exact. destruct re as [f rs|f ranges|f r|f subs|f subs| | | | |f op]; try discriminate.
+  destruct (length subs <? 2)%nat; [discriminate|]. destruct subs as [|s0 rest]; [discriminate|].
+  destruct s0; try discriminate. destruct (last rest RBeginText); try discriminate.
+  destruct (strip_last rest) as [|b body]; [intros H; inversion H; subst; repeat constructor|apply match_regex_valid].
+Qed.
